@@ -44,7 +44,15 @@ func marshal(val cty.Value, t cty.Type, path cty.Path, b *bytes.Buffer) error {
 			if val.RawEquals(cty.PositiveInfinity) || val.RawEquals(cty.NegativeInfinity) {
 				return path.NewErrorf("cannot serialize infinity as JSON")
 			}
-			b.WriteString(val.AsBigFloat().Text('f', -1))
+			bf := val.AsBigFloat()
+			if bf.IsInt() {
+				// Whole numbers compare exactly, so they must be written
+				// exactly rather than as the shortest text that identifies
+				// them at their own precision.
+				b.WriteString(bf.Text('f', 0))
+				return nil
+			}
+			b.WriteString(bf.Text('f', -1))
 			return nil
 		case cty.Bool:
 			if val.True() {
